@@ -336,6 +336,7 @@ def parts(tier):
                 Part('history-deep', make_harness(2, 8), bounds={'pool': 2, 'history_length': 8, 'ops': 'register/unregister/probe/tick(root)', 'settle_ticks': 10},
                      encoded=ENC, budget_s=90)]
     return [Part('history', make_harness(3, 6), bounds={'pool': 3, 'history_length': 6}, encoded=ENC, budget_s=1800),
+            Part('history-4', make_harness(4, 5), bounds={'pool': 4, 'history_length': 5}, encoded=ENC, budget_s=1800),
             Part('warm-forest', make_harness(3, 4, warm=True, settle_choice=True),
                  bounds={'pool': 3, 'initial_forest': 'any', 'history_length': 4, 'ops': 'register/unregister, each optionally settled'},
                  encoded=ENC + [M.Manager._dispatcher, M.Manager.getHandlers], budget_s=1800),
